@@ -1105,5 +1105,42 @@ theorem free_plan_applied_name_mode (base : FS) (hw : WF base) (hl : LinkFree ba
   simp only [Nat.zero_add] at hinv
   exact ⟨rfl, hinv.2.2.2.2⟩
 
+/-- **name mode keeps every entry in its directory** (C06, at the level of a whole run): after the real run of a
+    free plan every entry of the final tree is an initial entry — same identity, kind and content — whose path
+    differs from its initial path at most in the last component. -/
+theorem free_plan_keeps_parents (base : FS) (hw : WF base) (hl : LinkFree base)
+    (files : List FileRec) (gen : Nat → Gen) (strategy : Strategy) (answers : List Answer)
+    (hfree : FreePlan base files gen) :
+    ∀ e' ∈ (execute realNameRenamer { fs := base } files gen strategy answers).1.st.fs,
+      ∃ e ∈ base, e'.id = e.id ∧ e'.kind = e.kind ∧ e'.content = e.content ∧ e'.path.dropLast = e.path.dropLast := by
+  intro e' he'
+  obtain ⟨_, hmem⟩ := free_plan_applied_name_mode base hw hl files gen strategy answers hfree
+  obtain ⟨e, he, q, hm, rfl⟩ := (hmem e').mp he'
+  refine ⟨e, he, rfl, rfl, rfl, ?_⟩
+  rcases hm with ⟨j, fj, pj, _, hfj, hgj, hnej, hp, hq⟩ | ⟨_, hq⟩
+  · -- a renamed file: source and destination keys share everything but the last component
+    obtain ⟨pj', hgj', hcj⟩ := hfree.gens j fj hfj
+    rw [hgj] at hgj'
+    have : pj = pj' := by injection hgj'
+    subst this
+    rcases hcj with hcj | ⟨hG, _⟩
+    · exact absurd hcj hnej
+    · obtain ⟨sp, n, m, hs, hd, _, hn, hm', hsp, _, _, _⟩ := hG
+      have hplain : ∀ x : Name, x ≠ dotdot → ∀ c ∈ sp ++ [x], c ≠ dotdot := by
+        intro x hx c hc
+        rw [List.mem_append, List.mem_singleton] at hc
+        rcases hc with hc | hc
+        · exact hsp c hc
+        · rw [hc]; exact hx
+      have hkey : ∀ x : Name, x ≠ dotdot → absKey fj.inputDir ⟨false, sp ++ [x]⟩ = fj.inputDir ++ sp ++ [x] := by
+        intro x hx
+        unfold absKey
+        simp only [Bool.false_eq_true, if_false]
+        rw [lexNorm_plain _ _ (hplain x hx)]; simp
+      show q.dropLast = e.path.dropLast
+      rw [hq, hp, hs, hd, hkey n hn, hkey m hm']
+      simp [List.dropLast_concat]
+  · rw [hq]
+
 end C02
 end Tempren
